@@ -71,4 +71,60 @@ Lemma read_fixed_is_fixed_layer (r : @rd S) :
   hop r = None -> snd (read r) = fixed_layer (bsize r) (fun k => snd (lim_read r k)).
 Proof. intros H. unfold read, fixed_layer. rewrite H. reflexivity. Qed.
 
+(** _OverlapAudioReader._iter_blocks_with_overlap, one resumption of the generator: the first one asks for a whole block,
+    the later ones for hop samples and prepend the overlap kept from the previous block *)
+Definition ov_first (W H : Z) (inner : Z -> option (list S)) : @gstate S * option (list S) :=
+  match inner W with
+  | Some blk => (GRun (skipn (Z.to_nat H) blk), Some blk)
+  | None => (GDone, None)
+  end.
+
+Definition ov_next (H : Z) (c : list S) (inner : Z -> option (list S)) : @gstate S * option (list S) :=
+  match inner H with
+  | Some [] => (GRun c, None)
+  | Some blk => (GRun (skipn (Z.to_nat H) (c ++ blk)), Some (c ++ blk))
+  | None => (GRun c, None)
+  end.
+
+Lemma base_read_nonempty (r : @rd S) n blk : snd (base_read r n) = Some blk -> blk <> [].
+Proof.
+  unfold base_read. destruct (zslice (src r) (pos r) (pos r + n)) as [|x c]; cbn; intros H; [discriminate|].
+  inversion H; discriminate.
+Qed.
+
+Lemma lim_read_nonempty (r : @rd S) n blk : snd (lim_read r n) = Some blk -> blk <> [].
+Proof.
+  unfold lim_read. destruct (limit r) as [mx|]; [|apply base_read_nonempty].
+  cbv zeta. destruct (Z.min (mx - nread r) n <=? 0); [discriminate|].
+  pose proof (base_read_nonempty r (Z.min (mx - nread r) n)) as Hb.
+  destruct (base_read r (Z.min (mx - nread r) n)) as [r1 [b|]]; cbn in *; intros H; [|discriminate].
+  inversion H; subst. apply Hb; reflexivity.
+Qed.
+
+(** the overlap reader of the composed model is the generator over the limiter (or the base) *)
+Lemma read_overlap_first (r : @rd S) H :
+  hop r = Some H -> gen r = GInit ->
+  snd (read r) = snd (ov_first (bsize r) H (fun k => snd (lim_read r k)))
+  /\ gen (fst (read r)) = fst (ov_first (bsize r) H (fun k => snd (lim_read r k))).
+Proof.
+  intros Hh Hg. unfold read, ov_first. rewrite Hh, Hg.
+  destruct (lim_read r (bsize r)) as [r1 [blk|]]; cbn; split; reflexivity.
+Qed.
+
+Lemma read_overlap_next (r : @rd S) H c :
+  hop r = Some H -> gen r = GRun c ->
+  snd (read r) = snd (ov_next H c (fun k => snd (lim_read r k)))
+  /\ gen (fst (read r)) = fst (ov_next H c (fun k => snd (lim_read r k))).
+Proof.
+  intros Hh Hg. unfold read, ov_next. rewrite Hh, Hg.
+  pose proof (lim_read_nonempty r H) as Hne.
+  destruct (lim_read r H) as [r1 [blk|]] eqn:E; cbn in *.
+  - destruct blk as [|x blk]; [exfalso; apply (Hne []); reflexivity|]. split; reflexivity.
+  - split; [reflexivity|]. (* the limiter does not touch the generator state *)
+    unfold lim_read in E. destruct (limit r) as [mx|].
+    + cbv zeta in E. destruct (Z.min (mx - nread r) H <=? 0); [inversion E; subst; exact Hg|].
+      unfold base_read in E. destruct (zslice (src r) (pos r) (pos r + Z.min (mx - nread r) H)); inversion E; subst; exact Hg.
+    + unfold base_read in E. destruct (zslice (src r) (pos r) (pos r + H)); inversion E; subst; exact Hg.
+Qed.
+
 End Layers.
